@@ -423,6 +423,15 @@ func (e *Engine) checkSpecBindings() []string {
 			}
 			continue
 		}
+		if strings.HasPrefix(k, "funcvalue:") {
+			ty := e.typeByName(strings.TrimPrefix(k, "funcvalue:"), nil)
+			if ty == nil {
+				errs = append(errs, fmt.Sprintf("%s: contract for unknown function type %s", fs.Where, k))
+			} else if _, ok := ty.Underlying().(*types.Signature); !ok {
+				errs = append(errs, fmt.Sprintf("%s: %s is not a function type", fs.Where, k))
+			}
+			continue
+		}
 		if e.globalFuncInit[k] != nil {
 			continue
 		}
